@@ -213,7 +213,7 @@ def observe_call(op, s):
 class ParserHistory(BFSFamily):
     name = 'parser_history_bfs'
     depth_cap = 12
-    workers = 4
+    level_sync = True
     timeout = 60.0
     rule = ('explicit-state search over call histories on one shared parser: events = {parse, eval (full scope), '
             'eval (scope lacking names)} [thorough: + FormulaGrader call, DependentSampler construction] x a string '
